@@ -314,7 +314,8 @@ def source_shape(prop, relpath, qualname, description, expected_fragments, forbi
     """the normalised source (ast.unparse) of a small glue function contains the expected statements"""
     try:
         fi = get_func(relpath, qualname)
-        src = ast.unparse(ast.Module(body=fi.body, type_ignores=[]))
+        import re as _re
+        src = _re.sub(r"\bu(['\"])", r"\1", ast.unparse(ast.Module(body=fi.body, type_ignores=[])))      # u'' prefixes are dropped
     except Exception as e:
         return static_obligation('%s/%s::%s/%s' % (prop, relpath.split('/')[-1], qualname, description), False, qualname, relpath, 'function missing: %s' % e, hard=False)
     missing = [f for f in expected_fragments if f not in src] + ['forbidden: ' + f for f in forbidden if f in src]
@@ -347,3 +348,68 @@ def polynomial_term(relpath, cls, meth):
     i = sp.Symbol('i', integer=True, nonnegative=True); c = sym('c')
     t = Translator(fi.module, cls, {'r': R, 'i': i, 'c': c})
     return t.ev(comp.elt), k, i, c
+
+
+# ------------------------------------------------------------------------------------------------
+# piecewise functions and linear systems (splines)
+# ------------------------------------------------------------------------------------------------
+class AttrTranslator(_ClosureTranslator):
+    """names and attribute chains are looked up by their source text first (self.detachmentX -> symbol)"""
+    def ev(self, n):
+        if isinstance(n, (ast.Name, ast.Attribute)):
+            key = ast.unparse(n)
+            if key in self.env and not callable(self.env[key]): return self.env[key]
+        if isinstance(n, ast.Call):
+            key = ast.unparse(n.func)
+            if key in self.env and callable(self.env[key]): return self.env[key](*[self.ev(a) for a in n.args])
+            if key == 'np.array' and len(n.args) == 1: return self.ev(n.args[0])
+            if key == 'np.reshape' and len(n.args) == 2:
+                flat = self.ev(n.args[0]); shape = ast.literal_eval(n.args[1])
+                if len(flat) != shape[0] * shape[1]: raise Unsupported('reshape size')
+                return [flat[i * shape[1]:(i + 1) * shape[1]] for i in range(shape[0])]
+            if isinstance(n.func, ast.Name) and n.func.id == 'min' and len(n.args) == 1 and isinstance(n.args[0], ast.List):
+                return sp.Min(*[self.ev(e) for e in n.args[0].elts])
+        if isinstance(n, ast.Compare) and len(n.ops) == 1:
+            l, r_ = self.ev(n.left), self.ev(n.comparators[0])
+            return {ast.Lt: sp.Lt, ast.LtE: sp.Le, ast.Gt: sp.Gt, ast.GtE: sp.Ge, ast.Eq: sp.Eq}[type(n.ops[0])](l, r_)
+        if isinstance(n, ast.BoolOp):
+            vs = [self.ev(v) for v in n.values]
+            return sp.Or(*vs) if isinstance(n.op, ast.Or) else sp.And(*vs)
+        if isinstance(n, ast.UnaryOp) and isinstance(n.op, ast.Not): return sp.Not(self.ev(n.operand))
+        if isinstance(n, (ast.List, ast.Tuple)): return [self.ev(e) for e in n.elts]
+        return _ClosureTranslator.ev(self, n)
+
+def paths(relpath, qualname, env):
+    """-> [(condition, value term)] for a function made of assignments, if/elif/else and returns; plus final env per path"""
+    fi = get_func(relpath, qualname)
+    out = []
+    def run(stmts, env, cond):
+        env = dict(env)
+        for i, s in enumerate(stmts):
+            if isinstance(s, (ast.Import, ast.ImportFrom)): continue
+            if isinstance(s, ast.Assign) and len(s.targets) == 1 and isinstance(s.targets[0], ast.Name):
+                try: env[s.targets[0].id] = AttrTranslator(fi.module, fi.cls, env).ev(s.value)
+                except Unsupported: env[s.targets[0].id] = ('opaque', ast.unparse(s.value))
+            elif isinstance(s, ast.AugAssign) and isinstance(s.target, ast.Name):
+                t = AttrTranslator(fi.module, fi.cls, env)
+                v = t.ev(s.value); cur = env[s.target.id]
+                env[s.target.id] = cur + v if isinstance(s.op, ast.Add) else cur - v if isinstance(s.op, ast.Sub) else cur * v
+            elif isinstance(s, ast.If):
+                c = AttrTranslator(fi.module, fi.cls, env).ev(s.test)
+                rest = stmts[i + 1:]
+                run(list(s.body) + rest, env, cond + [c])
+                run(list(s.orelse) + rest, env, cond + [sp.Not(c)])
+                return
+            elif isinstance(s, ast.Return):
+                try: val = AttrTranslator(fi.module, fi.cls, env).ev(s.value)
+                except Unsupported: val = ('opaque', ast.unparse(s.value))
+                out.append((cond, val, env)); return
+            elif isinstance(s, ast.Expr):
+                env.setdefault('_exprs', []); env['_exprs'] = env['_exprs'] + [ast.unparse(s.value)]
+            elif isinstance(s, ast.Assign) and len(s.targets) == 1 and isinstance(s.targets[0], ast.Attribute):
+                env['_attr_assign'] = env.get('_attr_assign', []) + [ast.unparse(s)]      # checked by source_shape obligations
+            else:
+                raise Unsupported('statement %s in %s' % (type(s).__name__, qualname))
+        out.append((cond, None, env))
+    run(fi.body, env, [])
+    return out
